@@ -14,6 +14,9 @@ import HeimdallModel.Spec.ConfigYaml
   file saying the text at a leaf of the given type gives where the schema wants the given JSON type (`"rejected"` or the
   decoded leaf) and what a variable carrying the text gives;
 * op `names`: `res` = the path each variable name addresses and the name the documented rule gives that path back.
+
+A case may carry `prefix` (the text handed to `WithEnvPrefix`); its `env` then lists the variables of the process under
+their full names, the model takes those that start with the trimmed prefix (`Config.selectEnv`).
 -/
 open Lean Heimdall.Config
 
@@ -187,13 +190,19 @@ def run (c : Json) : Driver.E Json := do
   let d := ofJson (Driver.fldD c "defaults" Json.null)
   let d := match d with | .null => Val.map .nil | v => v
   let f ← fileOf c
-  let env ← envOfCase c
+  -- a case with a `prefix` of its own (what the operator passed as --env-config-prefix) lists the variables of the
+  -- PROCESS under their full names, foreign ones included: the loader model selects (`selectEnv`)
+  let penv ← envOfCase c
+  let sel : Env → Env := match c.getObjVal? "prefix" with
+    | .ok (.str p) => selectEnv p.toList
+    | _ => id
+  let env := sel penv
   match op with
   | "load" =>
     let orders := Driver.arrD c "orders"
     let envs ← (if orders.isEmpty then pure [env] else orders.mapM fun o => do
       let idxs ← (← o.getArr?).toList.mapM (·.getNat?)
-      pure (idxs.filterMap fun i => env[i]?))
+      pure (sel (idxs.filterMap fun i => penv[i]?)))
     let e0 := envTree env.entries
     let ok := env.consistent && d.compatB f && (merge d f).compatB e0 && f.nodup && d.nodup
     let results := envs.map fun e => (toJson (load d f e)).compress
@@ -206,6 +215,7 @@ def run (c : Json) : Driver.E Json := do
     let stats := Json.mkObj [
       ("ok", Json.bool ok),
       ("env", Driver.jnat env.length),
+      ("foreign", Driver.jnat (penv.length - env.length)),
       ("env_list_leaves", Driver.jnat (countIdx envLeaves)),
       ("env_overrides", Driver.jnat overridden),
       ("env_nil", Driver.jnat (env.filter fun e => e.2 == nullText).length),
